@@ -324,6 +324,7 @@ func init() {
 		return st.strEq(StrV{Arr: a.Arr, Off: a.Off, Len: a.Len}, StrV{Arr: b.Arr, Off: b.Off, Len: b.Len})
 	})
 	vrtPrims["vrtSymbolic"] = simple(func(st *State, args []Value) Value { return st.tt.True })
+	vrtPrims["vrtChoiceNative"] = simple(func(st *State, args []Value) Value { return st.tt.Const(0, 64) })
 	vrtPrims["vrtYield"] = func(st *State, th *Thread, fn *ssa.Function, args []Value) (Value, stepStatus) {
 		if st.multi() {
 			if !st.syncPoint(th, "yield") {
